@@ -870,6 +870,67 @@ func (c *Ctx) optSeq(f *ssa.Function, v ssa.Value, d int) []optAlt {
 			optEnv = saved
 			return out
 		}
+		// library forms: slices.Clone(x) is x; slices.Concat(a, b, …) is a then b …; slices.Insert(base, 0, vs...) is vs then
+		// base, slices.Insert(base, len(base), vs...) is base then vs
+		if pk, fn := core.StdCallee(x.Common().StaticCallee()); pk == "slices" {
+			cross := func(parts [][]optAlt) []optAlt {
+				out := []optAlt{{}}
+				for _, part := range parts {
+					var next []optAlt
+					for _, p1 := range out {
+						for _, p2 := range part {
+							next = append(next, optAlt{seq: append(append([]string{}, p1.seq...), p2.seq...), empty: p1.empty, onto: p1.onto})
+						}
+					}
+					out = next
+				}
+				return out
+			}
+			as := x.Common().Args
+			switch fn {
+			case "Clone":
+				if len(as) == 1 {
+					return c.optSeq(f, as[0], d+1)
+				}
+			case "Concat":
+				if len(as) == 1 {
+					var parts [][]optAlt
+					for _, e := range sliceElems(as[0], 0, map[ssa.Value]bool{}) {
+						parts = append(parts, c.optSeq(f, e, d+1))
+					}
+					if len(parts) > 0 {
+						return cross(parts)
+					}
+				}
+			case "Insert":
+				if len(as) == 3 {
+					base, vs := c.optSeq(f, as[0], d+1), c.optSeq(f, as[2], d+1)
+					if k, isK := core.ConstInt(as[1]); isK && k == 0 {
+						out := cross([][]optAlt{vs, base})
+						if !c.P.FreshIn(as[0]) {
+							for i := range out {
+								if len(base) > 0 && len(base[0].seq) > 0 {
+									out[i].onto = base[0].seq[0] // Insert shifts inside the slice it is handed when capacity allows
+								}
+							}
+						}
+						return out
+					}
+					if cl, ok := as[1].(*ssa.Call); ok && core.CalleeName(cl.Common()) == "builtin.len" && core.Path(cl.Common().Args[0]) == core.Path(as[0]) {
+						out := cross([][]optAlt{base, vs})
+						if !c.P.FreshIn(as[0]) {
+							for i := range out {
+								if len(base) > 0 && len(base[0].seq) > 0 {
+									out[i].onto = base[0].seq[0]
+								}
+							}
+						}
+						return out
+					}
+				}
+			}
+			return []optAlt{{seq: []string{"?" + fn}}}
+		}
 		if core.CalleeName(x.Common()) == "builtin.append" {
 			a := c.optSeq(f, x.Common().Args[0], d+1)
 			var b []optAlt
@@ -1647,6 +1708,55 @@ func (c *Ctx) runReject(walker *ssa.Function) {
 				if fc, ok := a.(*ssa.Call); ok && fc.Common().IsInvoke() && fc.Common().Method.Name() == "Field" && core.TypeStr(fc.Common().Value.Type()) == "reflect.Type" {
 					continue
 				}
+				// slices.ContainsFunc(reflect.VisibleFields(t), func(f) bool { return len(f.Index) == 1 && marker(f) }): the
+				// visible fields with a one-element index are exactly the type's own fields
+				if ld, isLd := a.(*ssa.UnOp); isLd && ld.Op == token.MUL {
+					if al, isAl := ld.X.(*ssa.Alloc); isAl {
+						if sv, isP := core.SingleStore(al).(*ssa.Parameter); isP {
+							a = sv // the spilled parameter
+						}
+					}
+				}
+				if prm, ok := a.(*ssa.Parameter); ok && prm.Parent().Parent() != nil && core.TypeStr(prm.Type()) == "reflect.StructField" {
+					direct := false
+					for _, l := range core.Lits(core.Guards(ci.Block())) {
+						if l.Kind == "cmp" && l.Op == token.EQL && l.Pol {
+							if k, isK := core.ConstInt(l.Y); isK && k == 1 {
+								if cl, ok := l.X.(*ssa.Call); ok && core.CalleeName(cl.Common()) == "builtin.len" {
+									if fr, ok := core.AsFieldLoad(cl.Common().Args[0]); ok && fr.Field == "Index" {
+										direct = true
+									}
+								}
+							}
+						}
+					}
+					overVisible := false
+					if mc := p.ClosureSite(prm.Parent()); mc != nil {
+						for _, u := range core.Users(mc) {
+							if uc, ok := u.(*ssa.Call); ok && len(uc.Common().Args) == 2 {
+								if pk, fn := core.StdCallee(uc.Common().StaticCallee()); pk == "slices" && fn == "ContainsFunc" {
+									if vf, ok := core.Strip(uc.Common().Args[0]).(*ssa.Call); ok && core.CalleeName(vf.Common()) == "reflect.VisibleFields" {
+										overVisible = true
+									}
+								}
+							}
+						}
+					} else {
+						// a capture-free literal: find the ContainsFunc call that names it
+						for _, uc := range p.RegionCalls(isStruct) {
+							if pk, fn := core.StdCallee(uc.Common().StaticCallee()); pk == "slices" && fn == "ContainsFunc" && len(uc.Common().Args) == 2 {
+								if fnv, ok := core.Strip(uc.Common().Args[1]).(*ssa.Function); ok && fnv == prm.Parent() {
+									if vf, ok := core.Strip(uc.Common().Args[0]).(*ssa.Call); ok && core.CalleeName(vf.Common()) == "reflect.VisibleFields" {
+										overVisible = true
+									}
+								}
+							}
+						}
+					}
+					if direct && overVisible {
+						continue
+					}
+				}
 				how = "the field handed to the marker test comes from " + core.Path(a)
 			}
 			c.R.Add("REJECT", "isStruct|scans-own-fields", "isStruct", p.Pos(isStruct.Pos()), n > 0 && how == "",
@@ -2076,6 +2186,10 @@ func (c *Ctx) runStructWalk(walker *ssa.Function) {
 				skipMarker = true
 			}
 		}
+		// sf.IsExported() — the accessor for `sf.PkgPath == ""`
+		if l.Kind == "call" && l.Pol && strings.HasSuffix(l.Callee, "reflect.StructField).IsExported") {
+			skipUnexp = true
+		}
 	}
 	c.R.Add("STRUCTWALK", "skip-unexported-and-marker", "structWalker", p.InstrPos(app), skipUnexp && skipMarker,
 		"unexported fields and the marker field are skipped, everything else is recorded", fmt.Sprintf("unexported=%v marker=%v", skipUnexp, skipMarker))
@@ -2188,9 +2302,29 @@ func (c *Ctx) runNilFunc() {
 				if fr, ok := core.AsFieldLoad(src); ok && fr.Owner == "argBuilder" {
 					fromList = true // another converter list of the builder (covered by this rule at its own appends)
 				}
+				// slices.DeleteFunc(list, isNil): what is left has no nil element
+				if dc, ok := src.(*ssa.Call); ok && len(dc.Common().Args) == 2 {
+					if pk, fn := core.StdCallee(dc.Common().StaticCallee()); pk == "slices" && fn == "DeleteFunc" {
+						var pred *ssa.Function
+						switch pv := core.Strip(dc.Common().Args[1]).(type) {
+						case *ssa.Function:
+							pred = pv
+						case *ssa.MakeClosure:
+							pred, _ = pv.Fn.(*ssa.Function)
+						}
+						if pred != nil && len(pred.Params) == 1 && len(pred.Blocks) == 1 {
+							for _, r := range core.Returns(pred) {
+								if b, ok := r.Results[0].(*ssa.BinOp); ok && b.Op == token.EQL &&
+									((b.X == ssa.Value(pred.Params[0]) && core.IsNilConst(b.Y)) || (b.Y == ssa.Value(pred.Params[0]) && core.IsNilConst(b.X))) {
+									fromList = true
+								}
+							}
+						}
+					}
+				}
 				c.R.Add("NILOPT-F", key, core.FuncName(f), p.InstrPos(cl), fromList,
 					"a *Func appended to a converter list is known to be non-nil (constructed on a nil-error branch or compared with nil)",
-					ternary(fromList, "spread of the builder's own converter list", "a whole slice "+core.Path(src)+" is appended without looking at its elements"))
+					ternary(fromList, "spread of the builder's own converter list, or of a list with its nil elements deleted", "a whole slice "+core.Path(src)+" is appended without looking at its elements"))
 				continue
 			}
 			bad := ""
@@ -2338,9 +2472,12 @@ func (c *Ctx) markerTypePredicate() *ssa.Function {
 		if f.Signature.Results().Len() != 1 || !types.Identical(f.Signature.Results().At(0).Type(), types.Typ[types.Bool]) {
 			continue
 		}
-		for _, ci := range core.Calls(f) {
-			if ci.Common().StaticCallee() == mf {
-				return f
+		// the marker test may sit in a literal handed to a library scan (`slices.ContainsFunc(fields, func(f) bool {…})`)
+		for _, g := range core.WithNested(f) {
+			for _, ci := range core.Calls(g) {
+				if ci.Common().StaticCallee() == mf {
+					return f
+				}
 			}
 		}
 	}
